@@ -1,0 +1,55 @@
+//go:build verif
+
+package crypto
+
+// Contracts for govc (contract-based deductive verification; see /verif/DESIGN.md).
+// This file holds only comments and is compiled only with -tags verif.
+
+//@ func expectedKeySize
+//@   tags C03 C07 C17
+//@   requires len(alg) >= 4
+//@   modifies nothing
+//@   ensures (alg[1] == '1' && alg[2] == '2' && alg[3] == '8') ==> result == 16
+//@   ensures (alg[1] == '1' && alg[2] == '9' && alg[3] == '2') ==> result == 24
+//@   ensures (alg[1] == '2' && alg[2] == '5' && alg[3] == '6') ==> result == 32
+//@   ensures result == 0 || result == 16 || result == 24 || result == 32
+
+//@ func encryptSymmetricAEAD
+//@   tags C03 C07 C17
+//@   requires aead != nil
+//@   modifies nothing
+//@   ensures [C03.aead.nonce] len(nonce) != aead.noncesize ==> (err == ErrInvalidNonce && ciphertext == nil && tag == nil)
+//@   ensures [C03.aead.split] len(nonce) == aead.noncesize ==> (err == nil && len(ciphertext) == len(plaintext) && len(tag) == aead.overhead)
+
+//@ func decryptSymmetricAEAD
+//@   tags C03 C07 C17
+//@   requires aead != nil
+//@   modifies nothing
+//@   ensures [C03.aead.dnonce] len(nonce) != aead.noncesize ==> (err == ErrInvalidNonce && plaintext == nil)
+//@   ensures [C03.aead.dtag] (len(nonce) == aead.noncesize && len(tag) != aead.overhead) ==> (err == ErrInvalidTag && plaintext == nil)
+//@   ensures err != nil ==> plaintext == nil
+//@   replay template decryptaead
+//@   replay val ctlen = len(ciphertext)
+//@   replay val ctcap = cap(ciphertext)
+//@   replay val ctoff = ciphertext.off
+//@   replay val chacha = false
+
+//@ func decryptSymmetricChaCha20Poly1305
+//@   tags C03 C07 C17
+//@   requires algorithm == "C20P" || algorithm == "C20PKW" || algorithm == "XC20P" || algorithm == "XC20PKW"
+//@   modifies nothing
+//@   ensures [C03.chacha.dkey] len(key) != 32 ==> (err == ErrKeyTypeMismatch && plaintext == nil)
+//@   ensures err != nil ==> plaintext == nil
+//@   replay template decryptaead
+//@   replay val ctlen = len(ciphertext)
+//@   replay val ctcap = cap(ciphertext)
+//@   replay val ctoff = ciphertext.off
+//@   replay val chacha = true
+
+//@ func getChaCha20Poly1305Cipher
+//@   tags C03 C07 C17
+//@   modifies nothing
+//@   ensures err == nil ==> (aead != nil && aead.overhead == 16 && len(nonce) == aead.noncesize && len(key) == 32)
+//@   ensures [C03.chacha.nonce] (len(key) == 32 && (algorithm == "C20P" || algorithm == "C20PKW") && len(nonce) != 12) ==> err == ErrInvalidNonce
+//@   ensures [C03.chacha.noncex] (len(key) == 32 && (algorithm == "XC20P" || algorithm == "XC20PKW") && len(nonce) != 24) ==> err == ErrInvalidNonce
+//@   ensures [C03.chacha.ok] (len(key) == 32 && (((algorithm == "C20P" || algorithm == "C20PKW") && len(nonce) == 12) || ((algorithm == "XC20P" || algorithm == "XC20PKW") && len(nonce) == 24))) ==> err == nil
